@@ -43,6 +43,7 @@ Method(kind, N, M, intg, grid) ==
 
 Base == [t0 |-> Num(Zero), T |-> Num(One),
          states |-> <<>>, controls |-> <<>>, algs |-> <<>>, params |-> <<>>, vars |-> <<>>,
+         pq |-> Q(7, 4),       \* value of the parent's own parameter (multi-stage scenarios)
          xblocks |-> <<>>, pblocks |-> <<>>,     \* grouping of consecutive scalar symbols into matrix-valued rockit symbols (<<>> = all scalar)
          dyn |-> "ode", rhs |-> <<>>, alg |-> <<>>, quads |-> <<>>,
          cons |-> <<>>, obj |-> <<>>, init |-> <<>>, reads |-> <<>>,
